@@ -9,7 +9,12 @@ CHECK = Check(
           "twice), (a, independently built structural copy), (a, copy with exactly one mutation at every position: scalar / string / "
           "bytes change, float shift of 10x and 0.1x the tolerance, element added / removed, key added / removed / renamed, pointer "
           "set / cleared, nil <-> empty collection), DeepEqual called in both argument orders in every case; plus the header on "
-          "other argument forms (typed and untyped nils, foreign types, nil **T). distinct = distinct input text."),
+          "other argument forms (typed and untyped nils, foreign types, nil **T); plus the argument-form matrix: every ordered "
+          "combination of the operand forms (T, *T, **T) x (T, *T, **T), both argument orders in each, all forms of an operand "
+          "being views of one object, on (a, a itself) and (a, independent copy) of the unit's most populated variant and on the "
+          "first mutation of every kind the unit has (scalar, string, bytes, float 10x / 0.1x, key added / removed / renamed, "
+          "element added / removed, pointer cleared / set, nil <-> empty) - the demanded answer in every cell, and where the text "
+          "leaves the answer open one and the same answer in all cells. distinct = distinct input text."),
     assumptions=["finite floats only (the property's quantifier)",
                  "pointer map keys compare by identity: an independently built copy of a non-empty pointer-keyed map has other keys, "
                  "so the text does not require it to compare equal (it does not: key set differs)",
@@ -21,7 +26,7 @@ MANIFEST = {
     "text": ("Rocq model of the code emitted by writeNodeDEQ and of the DeepEqual header (structural recursion on the node tree), "
              "theorems by induction on the node for all well-formed nodes and all well-typed values: reflexive (finite floats), "
              "symmetric for every pair (map pigeonhole, |a-b| = |b-a| on SpecFloat), true on structurally identical values, false "
-             "on every difference of a listed kind. Correspondence: the extracted model predicts, and the structural-equality spec "
+             "on every difference of a listed kind, the same answer in every combination of operand forms (T, *T, **T). Correspondence: the extracted model predicts, and the structural-equality spec "
              "judges, every pair the real generated DeepEqual is run on, in both argument orders."),
     "note": ("Trusted: Coq kernel, extraction, Go harness (reflection value builder), Go compiler. The model is tied to the generator "
              "only through the generated inspectors' behaviour on the enumerated units. No axioms."),
